@@ -484,6 +484,7 @@ func runC09(c *lib.Ctx) {
 	if only == "" || strings.Contains(only, "stack") {
 		r.sweepStack()
 		r.sweepSharp()
+		r.sweepCursor()
 	}
 	if only == "" || strings.Contains(only, "format") {
 		r.sweepFormat()
@@ -1649,6 +1650,17 @@ func (r *c09Run) replay() {
 			_, offsets := c09StackText(ops)
 			want, ok := c09StackExpect(rep, offsets)
 			bad = bad || !ok || res.Status != "V" || strings.Trim(res.Text, `"`) != want
+		case strings.HasPrefix(sig, "format-cursor-model"):
+			f := strings.Fields(rep)
+			switch {
+			case len(f) >= 3 && f[1] == "raise":
+				bad = bad || res.Status == "V"
+			case len(f) == 4 && f[1] == "done":
+				want := strings.ReplaceAll(strings.ReplaceAll(f[2], ".", ""), "-", "")
+				bad = bad || res.Status != "V" || res.Text != "\""+want+"\""
+			default:
+				bad = true
+			}
 		case strings.HasPrefix(sig, "reader-sharp-model"):
 			bad = bad || (rep == "ok raise" && res.Status == "V") || (strings.HasPrefix(rep, "ok radix") && (res.Status != "V" || res.Text != "(1)"))
 		case strings.HasPrefix(sig, "group-model"):
